@@ -90,11 +90,43 @@ def build(case, x):
     return op, Tg, Pg, np.array(wn)
 
 
+# a second table alive in the same process whose axes have the same length and the same first and last node as the
+# table under test, but other interior nodes (anything memoised per process on a summary of an axis collides)
+ALT_T = {3: [200.0, 1500.0, 2500.0], 4: [200.0, 800.0, 1700.0, 2500.0]}
+ALT_P = {3: [1e-2, 1e3, 1e6], 4: [1e-2, 1e2, 1e4, 1e6]}
+
+
+def build_twin(case, x):
+    nP, nT = case['shape']
+    Tg, Pg, wn = ALT_T.get(nT, fx.T_GRIDS[nT]), ALT_P.get(nP, fx.P_GRIDS[nP]), fx.WN_GRIDS[4]
+    if case['layout'] == 'xsec':
+        op = fx.TinyOp('CH4', wn, Tg, Pg, x * 0.5, case['mode'])
+    else:
+        ng = int(case['layout'][1])
+        w = np.array([0.2, 0.5, 0.3])[:ng]
+        op = fx.TinyK('CH4', wn, Tg, Pg, x * 0.5, w / w.sum(), case['mode'])
+    return op, Tg, Pg
+
+
+def twin_sweep(r, case, twin, x, Tg, Pg, tag, when):
+    for (tn, T), (pn, P) in itertools.product(axis_points(Tg), axis_points(Pg, log=True)):
+        if tn in ('below', 'above') or pn in ('below', 'above'):
+            continue
+        got = np.asarray(twin.opacity(T, P, None), dtype=float)
+        r.eq(got, opac.interp_opacity(x * 0.5, Tg, Pg, T, P, case['mode']), 'second-table-in-process',
+             'twin/%s/%s' % (when, tag), T=T, P=P)
+
+
 def case_fn(case):
     r = core.R(case)
     fx.reset_caches()
     x = make_table(case)
     op, Tg, Pg, wn = build(case, x)
+    twin = None
+    if max(case['shape']) > 2:
+        twin, tTg, tPg = build_twin(case, x)
+        twin_sweep(r, case, twin, x, tTg, tPg, '%s/%s' % (case['mode'], 'ktable' if case['layout'] != 'xsec' else 'xsec'),
+                   'first')
     req = case['wn']
     if req == 'none':
         wreq, sel = None, slice(None)
@@ -144,6 +176,8 @@ def case_fn(case):
             r.eq(got, ref, 'cell-value', 'cell/%s/%s' % (where, tag), T=T, P=P)
             if case['pattern'] != 'flat':
                 r.nontrivial = True
+    if twin is not None:
+        twin_sweep(r, case, twin, x, tTg, tPg, tag, 'after')
     # --- one live object: equally long but different wavenumber windows asked one after the other in one cell,
     #     then the interpolation mode switched on the object itself
     Tm = 0.5 * (Tg[0] + Tg[1]) * 1.07
@@ -162,6 +196,22 @@ def case_fn(case):
     got = np.asarray(op.opacity(Tm, Pm, None), float)
     r.eq(got, opac.interp_opacity(x, Tg, Pg, Tm, Pm, other), 'mode-switch-on-live-object', 'mode-switch/%s->%s/%s' % (
         mode, other, 'ktable' if isk else 'xsec'))
+    # the whole lattice again on the switched object: inside the grid (edges included) against the reference of the new
+    # mode, everywhere (outside included) against an object constructed in the new mode
+    fresh, _, _, _ = build(dict(case, mode=other), x)
+    for (tn, T), (pn, P) in lattice:
+        where = 'T=%s,P=%s' % (tn, pn)
+        try:
+            got = np.asarray(op.opacity(T, P, wreq), dtype=float)
+            want = np.asarray(fresh.opacity(T, P, wreq), dtype=float)
+        except Exception as e:
+            r.check(False, 'no-exception', 'exception/%s/switched/%s/%s' % (type(e).__name__, where, tag), exc=repr(e))
+            continue
+        r.eq(got, want, 'mode-switch-on-live-object', 'mode-switch-vs-fresh/%s/%s->%s/%s' % (
+            where, mode, other, 'ktable' if isk else 'xsec'), rtol=1e-12, T=T, P=P)
+        if tn not in ('below', 'above') and pn not in ('below', 'above'):
+            r.eq(got, opac.interp_opacity(x[:, :, sel], Tg, Pg, T, P, other), 'mode-switch-on-live-object',
+                 'mode-switch-cell/%s/%s->%s/%s' % (where, mode, other, 'ktable' if isk else 'xsec'), T=T, P=P)
     return r
 
 
